@@ -14,7 +14,7 @@
    one channel's answer should be as a function of that channel's map alone. *)
 From Coq Require Import List ZArith QArith Qabs Qreals Reals Bool Arith.
 Import ListNotations.
-From SV Require Import C06.Peaks C06.Lemmas C06.PatchP C07.Global C07.Lemmas C07.PatchP C07.GaussR C07.GaussE.
+From SV Require Import C06.Peaks C06.Lemmas C06.PatchP C07.Global C07.Lemmas C07.PatchP C07.GaussR C07.GaussE C07.Layer C07.LayerLemmas.
 
 Section Rationals.
 Local Open Scope Q_scope.
@@ -167,6 +167,98 @@ Print Assumptions c07_refine_bound_any_patch_partial.
 Print Assumptions c07_refine_bound_refuted_even.
 Print Assumptions c07_symmetric_unmoved_any_patch.
 
+(* ------------------------------------------------------------------------------------
+   The PUBLIC entry points that wrap global peak finding (C07/Layer.v, proofs C07/LayerLemmas.v):
+   FindInstancePeaks.forward (topdown.py) and SingleInstanceInferenceModel.forward
+   (single_instance.py).  `layer_peaks fixed o effs cms` = the keyword call
+   find_global_peaks(cms, threshold=o.peak_threshold, refinement=o.refinement,
+   integral_patch_size=o.integral_patch_size) — modelled WITH the callee's own defaults `d`
+   (declared now: 0.2 / None / 5 = callee_defaults) for absent keywords — followed by * output_stride, / input_scale
+   (if != 1), / eff_scale[sample].  `layer_single fixed o eff m` is what one (sample,
+   channel) should get from its own map, its sample's eff_scale and the configured options. *)
+Section Layer.
+Local Open Scope Q_scope.
+
+(* the layer's call resolves to the CONFIGURED threshold / refinement / patch size, for
+   every option value (0, None, ... included): the callee's defaults `d`, whatever they
+   are, never take over *)
+Theorem c07_layer_uses_configured_options : forall d fixed o effs cms,
+  layer_peaks d fixed o effs cms =
+  map (fun re : list gpoint * Q => map (rescale_gp o (snd re)) (fst re))
+      (combine (global_peaks_p fixed cms (threshold_of o) (refine_of o)) effs).
+Proof. exact layer_is_rescaled_global_peaks. Qed.
+
+(* (d) at the layer: entry (s, c) depends on map (s, c), eff_scale[s] and the options only *)
+Theorem c07_layer_channel_independence : forall d fixed o effs cms s c m eff,
+  Forall (fun chans => length chans = length (hd [] cms)) cms ->
+  map_at cms s c = Some m -> nth_error effs s = Some eff ->
+  at2 (layer_peaks d fixed o effs cms) s c = Some (layer_single fixed o eff m).
+Proof. exact layer_peaks_at. Qed.
+
+(* (c) at the layer: maximum below the configured threshold => NaN and 0 *)
+Theorem c07_layer_below_threshold : forall H W m, rect_map H W m -> (0 < H)%nat -> (0 < W)%nat ->
+  forall fixed o eff mx, is_max m mx -> mx < threshold_of o ->
+  layer_single fixed o eff m = (None, 0).
+Proof. exact layer_below_threshold. Qed.
+
+(* (a, b) at the layer: maximum at or above the configured threshold — whatever that is,
+   0 and "equal to the maximum" included — the value is the maximum; without refinement the
+   point is the rescaled cell (x, y), which attains the maximum (code as it is: fixed = true) *)
+Theorem c07_layer_at_or_above_threshold : forall H W m, rect_map H W m -> (0 < H)%nat -> (0 < W)%nat ->
+  forall fixed o eff mx, is_max m mx -> threshold_of o <= mx ->
+  exists x y v, global_rough fixed m (threshold_of o) = (Some (x, y), v) /\ v == mx /\
+    (x < W)%nat /\ (y < H)%nat /\
+    snd (layer_single fixed o eff m) = v /\
+    (refine_of o = None ->
+       layer_single fixed o eff m =
+       (Some (rescale o eff (inject_Z (Z.of_nat x)), rescale o eff (inject_Z (Z.of_nat y))), v)) /\
+    (fixed = true -> attains m y x v).
+Proof. exact layer_at_or_above_threshold. Qed.
+
+(* the decision is exactly "maximum < configured threshold" *)
+Theorem c07_layer_threshold_decides : forall H W m, rect_map H W m -> (0 < H)%nat -> (0 < W)%nat ->
+  forall fixed o eff mx, is_max m mx ->
+  (snd (layer_single fixed o eff m) == mx /\ threshold_of o <= mx) \/
+  (layer_single fixed o eff m = (None, 0) /\ mx < threshold_of o).
+Proof. exact layer_valid_iff. Qed.
+
+(* the coordinate adjustment is one linear factor output_stride / input_scale / eff_scale
+   (the `if input_scale != 1` branch is immaterial) *)
+Theorem c07_layer_rescale_is_linear : forall o eff c,
+  rescale o eff c == c * (lo_stride o / lo_scale o / eff).
+Proof. exact rescale_linear. Qed.
+
+(* (e) at the layer, outside F9: the refined point is within (p-1)/2 < p/2 map cells, i.e.
+   that many times the factor in image units, of the rescaled grid cell *)
+Theorem c07_layer_refine_bound_partial : forall fixed o eff m x y v,
+  lo_refinement o = RefIntegral -> (1 <= lo_patch o)%nat ->
+  global_rough fixed m (threshold_of o) = (Some (x, y), v) ->
+  selector_F9_p m y x (lo_patch o) = false ->
+  exists X Y, layer_single fixed o eff m = (Some (X, Y), v) /\
+    Qabs (X - rescale o eff (inject_Z (Z.of_nat x))) <= half_reach (lo_patch o) * Qabs (layer_factor o eff) /\
+    Qabs (Y - rescale o eff (inject_Z (Z.of_nat y))) <= half_reach (lo_patch o) * Qabs (layer_factor o eff) /\
+    half_reach (lo_patch o) < inject_Z (Z.of_nat (lo_patch o)) / 2.
+Proof. exact layer_refine_bound. Qed.
+
+(* a call site that forwards only the "truthy" options is NOT this function: with
+   peak_threshold = 0 the callee's 0.2 applies and a channel with maximum 1/8 is lost *)
+Theorem c07_layer_truthy_forwarding_refuted :
+  exists o effs cms,
+    layer_with callee_defaults (truthy_kwargs o) true o effs cms <> layer_peaks callee_defaults true o effs cms /\
+    at2 (layer_with callee_defaults (truthy_kwargs o) true o effs cms) 0 0 = Some (None, 0) /\
+    exists pt, at2 (layer_peaks callee_defaults true o effs cms) 0 0 = Some (Some pt, 1 # 8).
+Proof. exact truthy_forwarding_differs. Qed.
+End Layer.
+
+Print Assumptions c07_layer_uses_configured_options.
+Print Assumptions c07_layer_channel_independence.
+Print Assumptions c07_layer_below_threshold.
+Print Assumptions c07_layer_at_or_above_threshold.
+Print Assumptions c07_layer_threshold_decides.
+Print Assumptions c07_layer_rescale_is_linear.
+Print Assumptions c07_layer_refine_bound_partial.
+Print Assumptions c07_layer_truthy_forwarding_refuted.
+
 Section RealsPart.
 Local Open Scope R_scope.
 
@@ -256,6 +348,27 @@ Example ex_c07_mixed_channels_even :
   match global_peaks_p true [[ [[0;1;0];[0;3;2];[0;0;0]] ; [[0;0;0];[0;0;0];[0;0;0]] ]]%Q (1#2) (Some 4%nat) with
   | [[ (Some (px, py), v) ; (None, w) ]] =>
       Qeq_bool px (4 # 3) && Qeq_bool py (5 # 6) && Qeq_bool v 3 && Qeq_bool w 0
+  | _ => false
+  end = true.
+Proof. vm_compute. reflexivity. Qed.
+
+(* the layer with its default peak_threshold = 0, stride 4, input_scale 1/2, eff_scale 1 and 1/2:
+   a channel whose maximum 1/8 lies below the CALLEE's default 0.2 is reported (cell (1,0) ->
+   x = 1 * 4 / (1/2) / 1 = 8); a map whose maximum is exactly 0 = the threshold is valid with
+   value 0 (cell (1,1) -> 1 * 4 / (1/2) / (1/2) = 16) *)
+Example ex_c07_layer_default_threshold :
+  match layer_peaks callee_defaults true (mk_opts 0 RefNone 5 4 (1 # 2)) [1; 1 # 2]
+                    [[ [[0; 1 # 8]; [0; 0]] ]; [ [[-1; -1]; [-1; 0]] ]]%Q with
+  | [[ (Some (x, y), v) ]; [ (Some (x', y'), v') ]] =>
+      Qeq_bool x 8 && Qeq_bool y 0 && Qeq_bool v (1 # 8) && Qeq_bool x' 16 && Qeq_bool y' 16 && Qeq_bool v' 0
+  | _ => false
+  end = true.
+Proof. vm_compute. reflexivity. Qed.
+
+(* threshold exactly equal to a channel's maximum keeps it (1/8 >= 1/8); a smaller maximum is dropped *)
+Example ex_c07_layer_threshold_equal_max_and_above :
+  match layer_peaks callee_defaults true (mk_opts (1 # 8) RefIntegral 3 1 1) [1] [[ [[0; 1 # 8]; [0; 0]] ; [[0; 1 # 16]; [0; 0]] ]]%Q with
+  | [[ (Some (x, y), v) ; (None, w) ]] => Qeq_bool x 1 && Qeq_bool y 0 && Qeq_bool v (1 # 8) && Qeq_bool w 0
   | _ => false
   end = true.
 Proof. vm_compute. reflexivity. Qed.
